@@ -20,7 +20,7 @@ mod util;
 use engine::{Case, Report};
 use model::Model;
 
-const KINDS: &[&str] = &["kmers", "revcomp", "posmaps", "mins", "kmins", "oligo", "cov", "cgr", "oligocgr"];
+const KINDS: &[&str] = &["kmers", "revcomp", "posmaps", "mins", "kmins", "oligo", "cov", "cgr", "oligocgr", "oligobig"];
 
 fn parse_case(line: &str) -> Option<Case> {
     let line = line.trim();
@@ -37,7 +37,7 @@ fn parse_case(line: &str) -> Option<Case> {
             // a purely numeric hex string is ambiguous: parameters come first and their number is fixed per kind
             let nparams = match *kind {
                 "kmers" | "posmaps" | "cgr" => 1,
-                "revcomp" | "mins" | "kmins" | "oligo" => 2,
+                "revcomp" | "mins" | "kmins" | "oligo" | "oligobig" => 2,
                 "oligocgr" => 3,
                 "cov" => 4,
                 _ => 0,
